@@ -308,7 +308,14 @@ def _grouped(body, digits, first_max, group):
 
 
 def langref_is_number(w, allow_prefix_underscore=False):
-    """doc/language-reference.md, "Numeric Constant Formats"."""
+    """doc/language-reference.md, "Numeric Constant Formats".
+
+    `allow_prefix_underscore`: the paragraph "A single `_` may also be placed directly after the
+    `0x` or `0b` prefix, before the first group of digits" is present (it is since /repo commit
+    1c861f8; `langref_allows_radix_underscore` reads it off the reference on every run).  What
+    follows that `_` are *groups* under the 4- or the 8-digit rule (first group 1..4 resp. 1..8
+    digits, the others exactly 4 resp. 8); a longer unseparated run is not a group, so
+    `0x_123456789` is not of the form."""
     if w and set(w) <= DIGIT:
         return True
     if _grouped(w, DIGIT, 3, 3):
@@ -316,8 +323,11 @@ def langref_is_number(w, allow_prefix_underscore=False):
     for prefix, digits in (("0x", HEX), ("0b", set("01"))):
         if w.startswith(prefix):
             body = w[2:]
-            if allow_prefix_underscore and body.startswith("_"):
+            if body.startswith("_"):
+                if not allow_prefix_underscore:
+                    return False
                 body = body[1:]
+                return _grouped(body, digits, 4, 4) or _grouped(body, digits, 8, 8)
             if body and set(body) <= digits:
                 return True
             if _grouped(body, digits, 4, 4) or _grouped(body, digits, 8, 8):
@@ -382,8 +392,11 @@ def langref_examples():
 
 
 def langref_allows_radix_underscore():
-    """Does the reference (by example) allow `0x_…` / `0b_…`?  False on the pinned tree; the
-    proposed documentation patch fixes/C10-radix-underscore-doc.patch makes it True."""
+    """Does the reference describe `0x_…` / `0b_…`?  Read off the current text on every run: the
+    section must have an allowed example of that form (on /repo HEAD: `0x_1234_5678`, `0x_ff`,
+    `0b_1010_0101`, added by commit 1c861f8).  With that commit reverted this is False, the
+    oracle then expects BadNumber for `0x_1` and the check reports the classification
+    violation again (finding `number-with-underscore-directly-after-radix-prefix`, fixed)."""
     return any(ok and t[:3] in ("0x_", "0b_") for t, ok in langref_examples())
 
 
@@ -676,6 +689,137 @@ def boundary_texts():
             " a\nb\n", " a\n  b\n c\n", "a\n b\n\n # c\n   \n b\n", "a\n b\nc\n d", "a\n b\n  c", "a\n b\n  c\na",
             "a\n  b\n # x\n  c\n", "  # only comment\n", "a\n -- doc\n", "a\n\xa0b\n\xa0\xa0c\n\xa0b", "a\n\x1fb",
             "a\n b\n\tc", "a\n \tb\n \t c\n \tb\na", "\n\n", "a\r\n b\r\n", "~", "a ~", "a\n ~", "a\n  b\n ~"]
+    return out
+
+
+# ---------------------------------------------------------------- separability (C10_concat_with_blank & co.)
+BLANKS = [" ", "\t", "\xa0", "\x1f", "\u1680", "\u2003", "\u3000"]    # isspace, not a line boundary
+OPEN_ENDED = ("Comment", "Documentation", "BadDocumentation")
+SYNTH = ("Indent", "Dedent", '"\\n"')
+
+
+def line_tokens(text):
+    """Real tokens of a one-line text without the synthetic Indent/Dedent/end-of-line tokens:
+    ('ok', [...]) | ('error', (msg, sl, sc, el, ec)) | ('exception', …)."""
+    real = real_tokenize(text)
+    if real[0] != "ok":
+        return real
+    return "ok", [t for t in real[1] if t[0] not in SYNTH]
+
+
+def good_piece(p):
+    return bool(p) and not p[0].isspace() and not p[-1].isspace() and len(p.splitlines()) == 1 and \
+        p.splitlines()[0] == p
+
+
+def gen_piece(r):
+    k = r.random()
+    if k < 0.25:
+        return r.choice(WORD_SAMPLES)
+    if k < 0.45:
+        return r.choice(NUM_SAMPLES)
+    if k < 0.6:
+        return r.choice(OTHER_SAMPLES)
+    if k < 0.7:
+        return r.choice(PUNCT) + r.choice(["", "", r.choice(PUNCT), r.choice(WORD_SAMPLES)])
+    if k < 0.8:
+        return gen_word(r)
+    if k < 0.9:
+        return r.choice(WORD_SAMPLES + NUM_SAMPLES) + r.choice(BLANKS) * r.choice([1, 2]) + r.choice(OTHER_SAMPLES + PUNCT)
+    return "".join(r.choice(list("ab_A0x$\"-#=<&.") + PUNCT + JUNK[:4]) for _ in range(r.choice([1, 2, 3, 5])))
+
+
+def shift(tok, off):
+    sym, text, sl, sc, el, ec = tok
+    return (sym, text, sl, sc + off, el, ec + off)
+
+
+def separability_check(ctx, r, n):
+    """The content of C10_concat_with_blank / C10_leading_blanks / C10_join_with_blanks, sampled on
+    the real tokenizer: pieces that tokenize on their own (first/last character non-blank; none
+    but the last with a Comment/Documentation/BadDocumentation token), joined by non-empty runs
+    of blanks, tokenize to the pieces' tokens shifted to where each piece starts; an
+    "Unrecognized token" of the last piece moves with it."""
+    chk = ctx.chk
+    stats = {"trials": 0, "pieces": 0, "with_error_tail": 0, "rejected_pieces": 0, "leading_blank_trials": 0}
+    bad = 0
+    for _ in range(n):
+        k = r.choice([2, 2, 3, 4, 6])
+        pieces, toks = [], []
+        tries = 0
+        while len(pieces) < k and tries < 60:
+            tries += 1
+            p = gen_piece(r)
+            if not good_piece(p):
+                stats["rejected_pieces"] += 1
+                continue
+            res = line_tokens(p)
+            last = len(pieces) == k - 1
+            if res[0] == "ok" and (last or not any(t[0] in OPEN_ENDED for t in res[1])):
+                pieces.append(p)
+                toks.append(res)
+            elif res[0] == "error" and last:
+                pieces.append(p)
+                toks.append(res)
+            else:
+                stats["rejected_pieces"] += 1
+        if len(pieces) < 2:
+            continue
+        lead = r.random() < 0.2          # C10_leading_blanks: the line itself starts with blanks
+        text = "".join(r.choice(BLANKS) for _ in range(r.choice([1, 2, 4]))) if lead else ""
+        want, err = [], None
+        for i, (p, res) in enumerate(zip(pieces, toks)):
+            if i:
+                text += "".join(r.choice(BLANKS) for _ in range(r.choice([1, 1, 1, 2, 5])))
+            off = len(text)
+            if res[0] == "ok":
+                want += [shift(t, off) for t in res[1]]
+            else:
+                m, sl, sc, el, ec = res[1]
+                err = (m, sl, sc + off, el, ec + off)
+            text += p
+        got = line_tokens(text)
+        expected = ("error", err) if err else ("ok", want)
+        stats["trials"] += 1
+        stats["pieces"] += len(pieces)
+        stats["with_error_tail"] += 1 if err else 0
+        stats["leading_blank_trials"] += 1 if lead else 0
+        chk.count()
+        chk.nontrivial("join:" + text)
+        if got != expected:
+            bad += 1
+            # which side is wrong?  the spec oracle on the joined text and on the pieces
+            reported = False
+            for t in [text] + pieces:
+                real = real_tokenize(t)
+                if oracle_issues(ctx, t, real):
+                    reported = bool(oracle_check(ctx, t, real, "separability")) or reported
+            if not reported and len(chk.violations) < MAX_REPORT:
+                chk.violation("correspondence",
+                              {"input": text, "input_hex": hx(text), "pieces": pieces,
+                               "observed": canon(got)[:2000], "expected": canon(expected)[:2000],
+                               "theorem_or_correspondence":
+                               "C10_join_with_blanks / C10_concat_with_blank / C10_leading_blanks sampled on "
+                               "tokenizer.tokenize: the real code agrees with the spec oracle on the joined text and "
+                               "on every piece, yet the pieces' tokens do not compose"}, found_input=False)
+    stats["disagreements"] = bad
+    chk.extra["separability"] = stats
+
+
+def surrogate_texts(r, n):
+    """Python `str` may hold lone surrogates (U+D800…U+DFFF), Lean `Char` cannot, so the model is
+    not asked about these; the model-free spec oracle is.  (A UTF-8 source file cannot contain
+    them; `tokenize` is nevertheless defined on every `str`.)"""
+    out = []
+    sur = ["\ud800", "\udbff", "\udc00", "\udfff"]
+    for _ in range(n):
+        base = r.choice([gen_soup(r), gen_random(r), gen_indent(r)])
+        for _k in range(r.choice([1, 1, 2])):
+            j = r.randrange(len(base) + 1)
+            base = base[:j] + r.choice(sur) + base[j:]
+        out.append(("surrogate", base))
+    out += [("surrogate", x) for x in ["\ud800", "# \ud800", "-- \udfff x", '"\udc00"', "a \ud800", "a\n \udfffb",
+                                      "\ud800\n", "\udbff\udc00", "a\ud800b"]]
     return out
 
 
@@ -1085,9 +1229,12 @@ def _run(tier):
     doc_examples_check(ctx)
     if model is not None:
         charset_correspondence(ctx, model)
-        pattern_correspondence(ctx, model, r, 150 if tier == "quick" else 2500)
+        pattern_correspondence(ctx, model, r, 300 if tier == "quick" else 2500)
     run_texts(ctx, base_texts(), model, "corpus+boundary")
-    n = 20000 if tier == "quick" else 1200000
+    separability_check(ctx, common.rng("C10-join"), 3000 if tier == "quick" else 60000)
+    run_texts(ctx, surrogate_texts(common.rng("C10-surrogate"), 1500 if tier == "quick" else 30000), None,
+              "surrogates (spec oracle only)")
+    n = 40000 if tier == "quick" else 1200000
     batch = 5000 if tier == "quick" else 20000
     done = 0
     while done < n and len(chk.violations) < 20:
